@@ -176,6 +176,11 @@ func c10Exec(t *testing.T, spec RunSpec, cancelAt int64, deadline time.Duration,
 	res := simrt.Run(t, simConfig(spec.Sim), simSource(spec), func(s *simrt.Sim) {
 		ctx.OnCancel = func() {
 			s.Probe("cancel-fired")
+			if ctx.CancelAt > 0 && ctx.Polls() == ctx.CancelAt {
+				s.Fault("cancel-at-kth-poll")
+			} else {
+				s.Fault("cancel-at-simulated-instant")
+			}
 			if arm {
 				s.ArmStepBound("after-cancel", stepBoundAfterStop)
 				s.SetDeadline("wait-returns-after-cancel", 2*time.Second)
